@@ -16,6 +16,8 @@ import (
 	"encoding/hex"
 	"fmt"
 	"os"
+	"path/filepath"
+	"regexp"
 	"strconv"
 
 	"github.com/alicebob/miniredis/v2"
@@ -46,6 +48,10 @@ type blockSpec struct {
 	Policy   bool  `json:"policy"`   // carries a new network policy state
 	StCache  int   `json:"st_cache"` // size of the block write database's state cache (0 = none)
 	Reopen   bool  `json:"reopen"`   // reopen both databases after this merge (reads before and after)
+	// a big block: BigStates more states (own keys) with BigOps in-state operations each; with Known this makes the
+	// block's temp database larger than one write batch of the leveldb merge (LeveldbPermanent.batchlimit)
+	BigStates int `json:"big_states,omitempty"`
+	BigOps    int `json:"big_ops,omitempty"`
 }
 
 type chainSpec struct {
@@ -299,6 +305,15 @@ func (w *world) writeBlock(h int64, bs blockSpec, r *vh.Rand) isaac.TempDatabase
 		}
 		sts = append(sts, base.NewBaseState(height, key, base.NewDummyStateValue(util.UUID().String()), valuehash.RandomSHA256(), ops))
 	}
+	for i := 0; i < bs.BigStates; i++ {
+		key := fmt.Sprintf("big-%d-%04d", h, i)
+		w.keys = append(w.keys, key)
+		ops := make([]util.Hash, bs.BigOps)
+		for j := range ops {
+			ops[j] = valuehash.RandomSHA256()
+		}
+		sts = append(sts, base.NewBaseState(height, key, base.NewDummyStateValue(util.UUID().String()), valuehash.RandomSHA256(), ops))
+	}
 	var sufst base.State
 	if bs.Suffrage {
 		w.sufh++
@@ -497,6 +512,10 @@ func genChain(r *vh.Rand, maxlen int) chainSpec {
 		bs.Policy = r.Chance(1, 5)
 		bs.StCache = []int{0, 0, 1, 100}[r.Intn(4)]
 		bs.Reopen = r.Chance(1, 3)
+		if r.Chance(1, 400) {
+			limit := batchLimit()
+			bs.BigStates, bs.BigOps, bs.Known, bs.Reopen = r.Range(limit/3, limit+9), r.Intn(3), r.Intn(limit+9), true
+		}
 		cs.Blocks = append(cs.Blocks, bs)
 	}
 
@@ -509,6 +528,24 @@ var extraBelow = func() int64 {
 
 	return n
 }()
+
+// LeveldbPermanent.batchlimit as regenerated from the Go source into coq/Gen/C26.v (fallback: the value in the tree today)
+func batchLimit() int {
+	dir := os.Getenv("VERIF_DIR")
+	if dir == "" {
+		dir = "/verif"
+	}
+	if b, err := os.ReadFile(filepath.Join(dir, "coq", "Gen", "C26.v")); err == nil {
+		if m := regexp.MustCompile(`leveldb_perm_batchlimit : Z := (\d+)`).FindSubmatch(b); m != nil {
+			n, _ := strconv.Atoi(string(m[1]))
+			if n > 0 {
+				return n
+			}
+		}
+	}
+
+	return 333
+}
 
 type replay struct {
 	Chain chainSpec `json:"chain"`
@@ -542,6 +579,18 @@ func main() {
 		{Start: 0, CacheSize: 2, Keys: 2, Blocks: []blockSpec{{Policy: true, States: []int{0, 1}, Reopen: true}, {States: []int{1}, Known: 2, Reopen: true}}},
 		// suffrage proof only in the first block, long tail
 		{Start: 5, CacheSize: 0, Keys: 1, Blocks: []blockSpec{{Suffrage: true}, {}, {}, {}, {}, {}, {Reopen: true}, {}}},
+	}
+	// big blocks: more entries than one write batch of the leveldb merge (limit+7, and more than two batches), placed so
+	// that the entry at a batch boundary is a state / an in-state operation / a known operation; read live, reopened and later
+	limit := batchLimit()
+	res.Distribution["leveldb_perm_batchlimit"] = limit
+	for _, big := range []blockSpec{
+		{BigStates: limit + 7, BigOps: 0, Reopen: true},                                   // boundary inside the states
+		{BigStates: (limit + 7) / 3, BigOps: 2, Reopen: true},                             // boundary inside the in-state operations
+		{BigStates: 5, BigOps: 1, Known: limit + 7, Reopen: true},                         // boundary inside the known operations
+		{BigStates: limit/2 + 3, BigOps: 2, Known: limit + 9, Reopen: true, StCache: 100}, // several batches
+	} {
+		corpus = append(corpus, chainSpec{Start: 3, CacheSize: 2, Keys: 1, Blocks: []blockSpec{{States: []int{0}, Suffrage: true}, big, {States: []int{0}, Known: 1}}})
 	}
 	for i, cs := range corpus {
 		for j := range cs.Blocks {
